@@ -306,6 +306,16 @@ def restart (cfg : Cfg) (n : Node) : Node × Option Err :=
   | .error e => ({ n with cache := [], initErr := some e }, some e)
   | .ok (r, nx, p) => ({ n with running := r, next := nx, persisted := p, cache := [], initErr := none }, none)
 
+/-- Restart WITHOUT `--prune-mode` on a database that was pruned before (e.g. an RPC-only node with
+`--disable-sync`, which excludes `--prune-mode`): `blockchain.New` then wires
+`core.InitializeRunningEventFilter`, the initialiser that does not know the retention floor (the
+floor-aware one with floor 0); the floor itself stays in the database. Not an `Op`: the histories
+of the theorems restart with the initialiser of a pruning node; this function is the finding
+`query_fails_on_pruned_database_without_prune_mode`. -/
+def restartCore (cfg : Cfg) (n : Node) : Node × Option Err :=
+  let r := restart cfg { n with floor := 0 }
+  ({ r.1 with floor := n.floor }, r.2)
+
 /-- `RunningEventFilter.Reset` after a failed `Store` / `RevertHead` (statebackend
 `resetFilterOnError`, 3373c0b): the in-memory filter and a remembered initialisation error are
 dropped and the filter is rebuilt from the database at the next access. The cache stays. -/
